@@ -185,12 +185,23 @@ func resolveMarker(marker string, extras []string, fromTop bool) (o obs) {
 // later requirement. pip then follows root's dependencies again with the
 // extras enabled, so the observable and the oracle are those of resolveMarker.
 func resolveMarkerLate(marker string, extras []string) (o obs) {
+	return resolveMarkerLateSplit(marker, nil, extras)
+}
+
+// resolveMarkerLateSplit is resolveMarkerLate with the first requirement
+// (the one root is pinned for) already carrying some extras and the later one
+// bringing the others: top -> root[first], top -> via -> root[later].
+func resolveMarkerLateSplit(marker string, first, extras []string) (o obs) {
 	defer func() {
 		if p := recover(); p != nil {
 			o = obs{Panic: fmt.Sprint(p)}
 		}
 	}()
 	lc := resolve.NewLocalClient()
+	var tf dep.Type
+	if len(first) > 0 {
+		tf.AddAttr(dep.EnabledDependencies, strings.Join(first, ","))
+	}
 	var te dep.Type
 	te.AddAttr(dep.EnabledDependencies, strings.Join(extras, ","))
 	var tm dep.Type
@@ -202,7 +213,7 @@ func resolveMarkerLate(marker string, extras []string) (o obs) {
 		[]resolve.RequirementVersion{{VersionKey: vk("root", "", resolve.Requirement), Type: te}})
 	lc.AddVersion(resolve.Version{VersionKey: vk("top", "1.0", resolve.Concrete)},
 		[]resolve.RequirementVersion{
-			{VersionKey: vk("root", "==1.0", resolve.Requirement)},
+			{VersionKey: vk("root", "==1.0", resolve.Requirement), Type: tf},
 			{VersionKey: vk("via", "", resolve.Requirement)},
 		})
 	ctx, cancel := context.WithCancel(context.Background())
